@@ -32,6 +32,10 @@ FIELDS = {
     "CFOrientation": {"self.orientation": ("self_orientation", "dictD"), "self.graph.graph": ("self_graph_graph", "dictD"), "self.in_degree": ("self_in_degree", "dictZ"),
                       "self.out_degree": ("self_out_degree", "dictZ"), "self.is_full": ("self_is_full", "bool"), "self.is_full_checked": ("self_is_full_checked", "bool")},
 }
+FIELDS["CFConfigMoves"] = {"self.q_vertex": ("self_q_vertex", "key"), "self.v_tilde_vertices": ("self_v_tilde_vertices", "set"),
+                           "self.divisor.degrees": ("self_divisor_degrees", "dictZ"), "self.divisor.graph.graph": ("self_divisor_graph_graph", "dictD")}
+SRC_CLASS = {"CFConfigMoves": "CFConfig"}          # a group that is translated from the source of another class (kept in a file of its own)
+CROSS = {"self_degrees": "self_divisor_degrees", "self_graph_graph": "self_divisor_graph_graph"}      # fields of self.divisor as seen from a CFConfig
 ENUMS = {}     # "OrientationState.NAME" -> int, read from the source of the enum class
 TARGETS = [
     ("chipfiring/CFDivisor.py", "CFDivisor", "is_effective"), ("chipfiring/CFDivisor.py", "CFDivisor", "get_degree"),
@@ -43,6 +47,7 @@ TARGETS = [
     ("chipfiring/CFiringScript.py", "CFiringScript", "update_firings"),
     ("chipfiring/CFConfig.py", "CFConfig", "get_out_degree_S"),
     ("chipfiring/CFOrientation.py", "CFOrientation", "set_orientation"),
+    ("chipfiring/CFConfig.py", "CFConfigMoves", "set_fire"), ("chipfiring/CFConfig.py", "CFConfigMoves", "lending_move"), ("chipfiring/CFConfig.py", "CFConfigMoves", "borrowing_move"),
 ]
 class Unsupported(Exception): pass
 def bad(node, why=""): raise Unsupported("%s at line %s: %s" % (type(node).__name__, getattr(node, "lineno", "?"), why))
@@ -175,7 +180,7 @@ class Fn:
         """close the lookups hoisted while translating the current statement around `text`"""
         for t, look in reversed(self.pending): text = "match %s with None => EXN_ | Some %s =>\n  %s end" % (look, t, text)
         self.pending = []; return text
-    def state_tuple(self, vs): return "(" + ", ".join(vs) + ")" if len(vs) != 1 else vs[0]
+    def state_tuple(self, vs): return "tt" if not vs else ("(" + ", ".join(vs) + ")" if len(vs) != 1 else vs[0])
     def assigned(self, stmts):
         """fields written and sets grown inside a loop body: the loop-carried state"""
         out = []
@@ -280,6 +285,26 @@ class Fn:
                 if ta != "key": bad(s, "add of " + ta)
                 x = c.func.value.id; pre = self.pending; self.pending = []; body = K(); self.pending = pre
                 return self.wrap("let %s := s_add %s %s in\n  %s" % (x, a, x, body))
+            if ast.unparse(c.func.value) == "self.divisor" and self.cls == "CFConfigMoves":
+                callee = DONE.get(("CFDivisor", c.func.attr))
+                if not callee or callee.rty is not None or not callee.can_raise: bad(s, "call of an untranslated CFDivisor method")
+                names = [p_ for p_, _ in callee.params]
+                if c.keywords or len(c.args) != len(names): bad(s, "arguments of the delegated call")
+                args = []
+                for fld in callee.reads:
+                    mine = CROSS[fld]
+                    if mine not in self.reads: self.reads.append(mine)
+                    args.append(mine)
+                if callee.uses_order: self.uses_order = True; args.append("set_order")
+                for a_, (_, ty_) in zip(c.args, callee.params):
+                    t_, tt_ = self.expr(a_)
+                    if tt_ != ty_: bad(s, "argument type")
+                    args.append(t_)
+                ws = [CROSS[w] for w in callee.writes]
+                for w in ws:
+                    if w not in self.writes: self.writes.append(w)
+                self.can_raise = True; pre = self.pending; self.pending = []; body = K(); self.pending = pre
+                return self.wrap("match CFDivisor_%s %s with PyExn %s => EXN_ | PyOk %s =>\n  %s end" % (c.func.attr, " ".join(args), self.state_tuple(ws), self.state_tuple(ws), body))
             if ast.unparse(c.func.value) == "self":
                 callee = DONE.get((self.cls, c.func.attr))
                 if not callee or callee.rty is not None: bad(s, "call of an untranslated method / of a method with a result")
@@ -329,7 +354,7 @@ class Fn:
                 self.rty = rt; pre = self.pending; self.pending = []; body = K(); self.pending = pre
                 return self.wrap("if existsb (fun %s => %s %s) %s then RET_(%s) else\n  %s" % (binder, bind, c, lst, r, body))
             carried = self.assigned(s.body)
-            if not carried: bad(s, "loop without effect")
+            if not carried and not any(isinstance(n_, ast.Raise) for n_ in ast.walk(s)): bad(s, "loop without effect")
             for v in carried:
                 if v in [f[0] for f in FIELDS[self.cls].values()]:
                     if v not in self.writes: self.writes.append(v)
@@ -421,16 +446,16 @@ def read_enums():
 def main():
     failed = []
     read_enums()
-    for cls in ("CFDivisor", "CFGraph", "CFiringScript", "CFConfig", "CFOrientation"):
+    for cls in ("CFDivisor", "CFGraph", "CFiringScript", "CFConfig", "CFOrientation", "CFConfigMoves"):
         out_path = os.path.join(os.path.dirname(OUT), "TranslatedImp%s.v" % cls)
         try:
             out = ["(* GENERATED on every run by tools/translate_imp.py from the current source in %s. Do not edit. *)" % REPO,
-                   "From Coq Require Import ZArith List Bool Arith.", "Import ListNotations.", "From CF Require Import PyDict.", "Open Scope Z_scope.", ""]
+                   "From Coq Require Import ZArith List Bool Arith.", "Import ListNotations.", "From CF Require Import PyDict%s." % (" TranslatedImpCFDivisor" if cls == "CFConfigMoves" else ""), "Open Scope Z_scope.", ""]
             k = 0
             for path, c, name in TARGETS:
                 if c != cls: continue
                 tree = ast.parse(open(os.path.join(REPO, path)).read())
-                fn = Fn(find(tree, cls, name), cls); text = fn.translate(); DONE[(cls, name)] = fn; k += 1
+                fn = Fn(find(tree, SRC_CLASS.get(cls, cls), name), cls); text = fn.translate(); DONE[(cls, name)] = fn; k += 1
                 out.append("(* %s :: %s.%s   reads %s, writes %s%s *)" % (path, cls, name, fn.reads, fn.writes, ", may raise" if fn.can_raise else "")); out.append(text); out.append("")
             if cls == "CFDivisor":
                 tree = ast.parse(open(os.path.join(REPO, "chipfiring/CFDivisor.py")).read())
